@@ -13,6 +13,8 @@ ee065f4:C02
 4eb59d7:C12,C02,C14
 12b19a6:C02,C12,C14
 9cbccb0:C11
+5f18c17:C03
+b475a6a:C03
 01a5b3a:C15
 1e71232:C03
 4ab7118:C04
@@ -45,7 +47,7 @@ for line in $MAP; do
   tests="tests-pass"
   (cd /repo && go test -vet=off -count=1 ./... >/dev/null 2>&1) || tests="TESTS-FAIL"
   for chk in ${checks//,/ }; do
-    out="$(./run.sh "$chk" quick 2>/dev/null)"; rc=$?
+    out="$(VERIF_HANG_S=20 ./run.sh "$chk" quick 2>/dev/null)"; rc=$?
     if [ $rc -eq 1 ] && echo "$out" | grep -q "^VIOLATION property=$chk "; then res=DETECTED; else res="MISSED(rc=$rc)"; fail=1; fi
     echo "$c $chk $res $tests | $subj" | tee -a "$OUT"
   done
